@@ -402,6 +402,46 @@ fn c01_simdvec_resize_body(new_len: usize) {
     kani::cover!(first[0] == i32::MIN && fill[0] == 9);
 }
 
+/// `reset_from_iter_simd(new_len, iter)` on a SimdVec with ARBITRARY previous length and contents
+/// (2 stale vectors): afterwards the vectors are exactly the first ceil(new_len/16) items of the
+/// iterator - nothing of the previous block survives, nothing beyond the needed vectors is taken -
+/// and the scalar view has `new_len` elements.  This is how the windowed-signal scratch of the LPC
+/// estimator is refilled for every block (`fill_windowed_signal`).
+//@ unit props=C10,C01 tier=quick kind=bounded timeout=600 funcs="SimdVec::reset_from_iter_simd; SimdVec::iter_simd; SimdVec::simd_len" bound="2 stale vectors; new length 0, 5, 16, 17 and 32 from an iterator of 3 vectors"
+#[kani::proof]
+#[kani::unwind(70)]
+fn c10_simdvec_reset_from_iter() {
+    c10_simdvec_reset_from_iter_body(0);
+    c10_simdvec_reset_from_iter_body(5);
+    c10_simdvec_reset_from_iter_body(16);
+    c10_simdvec_reset_from_iter_body(17);
+    c10_simdvec_reset_from_iter_body(32);
+}
+
+fn c10_simdvec_reset_from_iter_body(new_len: usize) {
+    let mut sv = any_simdvec_i32x16(2);
+    let src = any_simdvec_i32x16(3);
+    let a: [i32; 16] = *src.as_ref_simd()[0].as_array();
+    let b: [i32; 16] = *src.as_ref_simd()[1].as_array();
+    sv.reset_from_iter_simd(new_len, src.iter_simd().map(|v| *v));
+    let want = (new_len + 15) / 16;
+    assert!(sv.len() == new_len);
+    assert!(sv.simd_len() == want);
+    if want >= 1 {
+        assert!(*sv.as_ref_simd()[0].as_array() == a);
+    }
+    if want >= 2 {
+        assert!(*sv.as_ref_simd()[1].as_array() == b);
+    }
+    let view = sv.as_ref();
+    assert!(view.len() == new_len);
+    let mut i = 0;
+    while i < new_len {
+        assert!(view[i] == if i < 16 { a[i] } else { b[i - 16] });
+        i += 1;
+    }
+}
+
 // ================================================================================================
 // C01: constant-block detection (bounded companion of Verus unit `is_constant`, which is unbounded
 // but tied to the text of the loop; this one accepts any rewrite of the body)
